@@ -79,6 +79,18 @@ def cps(s: str) -> List[int]:
     return [ord(c) for c in s]
 
 
+class KeyLog(list):
+    """keys a stage asked its cache for + whether each lookup was a hit"""
+
+    def __init__(self):
+        super().__init__()
+        self.hits: List[bool] = []
+
+    def reset(self):
+        del self[:]
+        del self.hits[:]
+
+
 class Spy:
     """Transparent wrapper around a stage cache that logs the keys the stage asks for."""
 
@@ -87,7 +99,10 @@ class Spy:
 
     def get(self, key):
         self._log.append(key)
-        return self._inner.get(key)
+        val = self._inner.get(key)
+        if hasattr(self._log, "hits"):
+            self._log.hits.append(val is not None)
+        return val
 
     def put(self, *a, **k):
         return self._inner.put(*a, **k)
@@ -125,11 +140,21 @@ def t1_raw(ctx, state, text: str, gid: str = "g:surface") -> dict:
             if isinstance(kw, str) and kw:
                 labels.append((n.id, kw))
     seeds = sorted(_match_keywords(text, labels).keys())
+    # further active graphs (multi-graph states): their content and seeds are part of what the T1 call reads
+    others = [x for x in (state.get("active_graphs") or []) if x != gid]
+    all_content = [[gid, graph_content(g)]]
+    all_seeds = [gid + "|" + s_ for s_ in seeds]
+    for og in others:
+        g2 = state["store"].get_graph(og)
+        lab2 = [(n.id, n.label) for n in g2.nodes.values() if getattr(n, "label", None)]
+        all_content.append([og, graph_content(g2)])
+        all_seeds += [og + "|" + s_ for s_ in sorted(_match_keywords(text, lab2).keys())]
     caps = getattr(ctx, "slice_budgets", None) or {}
     relax = cfg_t1.get("relax_cap", None)
     oi = lambda v: None if v is None else int(v)
     return {
-        "gid": code(gid), "graph": code(graph_content(g)), "text": code(text),
+        "gid": code(gid), "graph": code(all_content), "_graph0": code(graph_content(g)), "_ngraphs": 1 + len(others),
+        "text": code(text),
         "decay": code(stable_key(cfg_t1.get("decay", {}))),
         "mult": code(stable_key(cfg_t1.get("edge_type_mult", {"supports": 1.0, "associates": 0.6, "contradicts": 0.8}))),
         "radius": int(cfg_t1.get("radius_cap", 4)), "iter": int(cfg_t1.get("iter_cap", 50)),
@@ -140,7 +165,7 @@ def t1_raw(ctx, state, text: str, gid: str = "g:surface") -> dict:
         "vis": int(_cfg_get(ctx.cfg, ["perf", "t1", "caps", "visited"], 0) or 0),
         "ded": int(_cfg_get(ctx.cfg, ["perf", "t1", "dedupe_window"], 0) or 0),
         "perf": bool(_cfg_get(ctx.cfg, ["perf", "enabled"], False)),
-        "seeds": [code(s_) for s_ in seeds], "_seeds": list(seeds),
+        "seeds": [code(s_) for s_ in (seeds if not others else all_seeds)], "_seeds": list(seeds),
         "_decay": stable_key(cfg_t1.get("decay", {})), "_gid": gid, "_etag": state["store"].version_etag(gid),
     }
 
@@ -321,8 +346,8 @@ def run_history(scratch: Path, case: dict, caches_on: bool, key_log: Optional[li
     build and after EVERY op, the version components (graph etag, index version) and the content codes per state."""
     mode, cap, ttl = case["mode"], int(case.get("cap", 512)), int(case.get("ttl", 300))
     clock = Clock()
-    spy1: list = []
-    spy2: list = []
+    spy1: KeyLog = KeyLog()
+    spy2: KeyLog = KeyLog()
     _install_stage_caches(mode, caches_on, cap, ttl, clock, spy1, spy2)
     from clematis.engine.cache import CacheManager
     orch = importlib.import_module("clematis.engine.orchestrator")
@@ -337,9 +362,10 @@ def run_history(scratch: Path, case: dict, caches_on: bool, key_log: Optional[li
             raw = t1_raw(ctx, state, text)
         except Exception as e:      # malformed configuration: no record (the stage itself decides what happens)
             raw = {"__err__": type(e).__name__}
-        del spy1[:]
+        spy1.reset()
         r = t1mod.t1_propagate(ctx, state, text)
         cur["t1"] = _canon_t1(r)
+        live.append(("t1", r))
         m = getattr(r, "metrics", {}) or {}
         cur["x1"] = {"raw": raw, "real": list(spy1), "res": code(cur["t1"]), "hit": int(m.get("cache_hits", 0) or 0)}
         return r
@@ -349,12 +375,14 @@ def run_history(scratch: Path, case: dict, caches_on: bool, key_log: Optional[li
             raw = t2_raw(ctx, state, text, t1)
         except Exception as e:
             raw = {"__err__": type(e).__name__}
-        del spy2[:]
+        spy2.reset()
         r = t2mod.t2_semantic(ctx, state, text, t1)
         c = _canon_t2(r)
-        cur.setdefault("x2", []).append({"raw": raw, "real": list(spy2), "res": code(c), "hit": id(r) in seen_t2})
+        cur.setdefault("x2", []).append({"raw": raw, "real": list(spy2), "res": code(c),
+                                        "hit": bool(any(spy2.hits)) or id(r) in seen_t2})
         seen_t2.add(id(r))
         keep.append(r)
+        live.append(("t2", r))
         if "t2" not in cur:
             cur["t2"] = c
             cur["t2_src"] = "stage"
@@ -363,6 +391,7 @@ def run_history(scratch: Path, case: dict, caches_on: bool, key_log: Optional[li
         return r
 
     keep: list = []                 # keeps results alive so that `id` stays unique
+    live: list = []                 # the result objects handed out during the current turn (aliasing monitor)
 
     class CapMgr(CacheManager):
         def get(self, namespace, key):
@@ -386,16 +415,36 @@ def run_history(scratch: Path, case: dict, caches_on: bool, key_log: Optional[li
         w = TR.build_world(Path(scratch) / f"w{wi}", sp, fresh_process_state=False)
         if caches_on and mode in ("turn", "all_lru", "all_bytes"):
             w.state["_cache_mgr"] = CapMgr(max_entries=cap, ttl_sec=ttl, time_fn=clock)
+        if w.store is not None and sp.get("graph2"):
+            from clematis.graph.store import Node as _N, Edge as _E
+            g2 = sp["graph2"]
+            w.store.ensure("g:aux")
+            if g2.get("nodes"):
+                w.store.upsert_nodes("g:aux", [_N(id=n[0], label=n[1]) for n in g2["nodes"]])
+            if g2.get("edges"):
+                w.store.upsert_edges("g:aux", [_E(id=e[0], src=e[1], dst=e[2], weight=float(e[3]), rel=e[4]) for e in g2["edges"]])
+            w.state["active_graphs"] = ["g:surface", "g:aux"]
         if w.store is not None and callable(getattr(type(w.store), "apply_deltas", None)):
             _real_apply_store(w.store)
         worlds.append(w)
         if trace is not None:
             trace.append(world_versions(wi, w))
+    # the results as the rest of the turn receives them (a turn-level hit hands out its own object)
+    health = importlib.import_module("clematis.engine.health")
+    real_health = health.check_and_log
+
+    def cap_health(ctx, state, t1, t2, *a, **k):
+        for kind, obj in (("t1", t1), ("t2", t2)):
+            if obj is not None and not any(o is obj for _, o in live):
+                live.append((kind, obj))
+        return real_health(ctx, state, t1, t2, *a, **k)
+
     had = {n: (n in vars(orch), vars(orch).get(n)) for n in ("t1_propagate", "t2_semantic")}
     out: List[dict] = []
     try:
         orch.t1_propagate = cap_t1
         orch.t2_semantic = cap_t2
+        health.check_and_log = cap_health
         turn_no = 0
         for op in case["ops"]:
             k = op["op"]
@@ -472,7 +521,23 @@ def run_history(scratch: Path, case: dict, caches_on: bool, key_log: Optional[li
                     "gel": code(sorted((str(k), str(v)) for k, v in ((w.state.get("graph") or {}).get("edges") or {}).items()))
                     if _hyb_on else 0,
                 }
-                run = TR.run_turn(w, op["text"], turn_id=turn_no)
+                del live[:]
+                beh = {"store_apply_all": TR.fault("store_apply_all", "OSError")} if op.get("outage") else None
+                run = TR.run_turn(w, op["text"], turn_id=turn_no, behaviours=beh)
+                if case.get("mutate_returned"):
+                    # value aliasing: a caller that edits the containers of a result it was handed (after the turn is over)
+                    # must not change what a later hit returns
+                    for kind, obj in live:
+                        try:
+                            if kind == "t1":
+                                obj.graph_deltas.append({"op": "upsert_node", "id": "__caller_edit__"})
+                                obj.metrics["__caller_edit__"] = 1
+                            else:
+                                obj.retrieved.reverse()
+                                obj.graph_deltas_residual.append({"op": "upsert_node", "id": "__caller_edit__"})
+                                obj.metrics["__caller_edit__"] = 1
+                        except Exception:
+                            pass
                 sb = getattr(getattr(w, "last_ctx", None), "slice_budgets", None) or {}
                 turn_ctx["t1"] = sorted(str(d.get("id")) for d in ((cur.get("t1") or {}).get("deltas") or []))
                 for xt in cur.get("xturn", []):
@@ -490,6 +555,7 @@ def run_history(scratch: Path, case: dict, caches_on: bool, key_log: Optional[li
             if trace is not None and "w" in op:
                 trace.append(world_versions(op["w"], worlds[op["w"]]))
     finally:
+        health.check_and_log = real_health
         for n, (h, prev) in had.items():
             if h:
                 setattr(orch, n, prev)
